@@ -310,6 +310,11 @@ func (p *pgen) body() []pnode {
 	if p.depth >= 3 {
 		m = 2
 	}
+	if p.g.Chance(6) {
+		// a completely empty body (no marker, no text): `{% when 1 %}{% when 2 %}…`, `{% if a %}{% else %}…`
+		p.note("empty-body")
+		return nil
+	}
 	out := []pnode{p.mark()}
 	if p.depth < p.maxDepth && p.g.Chance(55) {
 		out = append(out, p.seq(m)...)
